@@ -2,12 +2,14 @@
   C18 — build configurations agree on every in-contract program.
 
   Property theorems only.  Model: Cello/Config.lean.  Source-derived tables: CelloGen/Cfg.lean (translate/g_cfg.py).
-  Helper lemmas: CelloProofs/Lemmas/Cfg.lean.
+  Helper lemmas: CelloProofs/Lemmas/Cfg.lean, CfgFull.lean, CfgKeep.lean (keep programs: containers as the sole path to
+  collector-managed objects; the collector is Cello/Heap.lean's, proved complete in C01).
 -/
 import Cello.Config
 import CelloGen.Cfg
 import CelloProofs.Lemmas.Cfg
 import CelloProofs.Lemmas.CfgFull
+import CelloProofs.Lemmas.CfgKeep
 
 namespace Cello.Config
 open CelloGen.Cfg
@@ -157,11 +159,79 @@ theorem C18_cache_is_memo (cfg : Cfg) (memo : List ((String × Nat) × String)) 
     (typeInstance cfg memo ty cls).2 = scan ty cls ∧ MemoOK (typeInstance cfg memo ty cls).1 :=
   typeInstance_spec cfg memo ty cls hm
 
-/-- **The collector does not change what reachable objects contain**: after mark + sweep every live handle finds the very
-    same object. -/
-theorem C18_collect_preserves_reachable (s : St) :
-    (collect s).live = s.live ∧ ∀ p ∈ s.live, findObj (collect s).heap p.2 = findObj s.heap p.2 :=
-  ⟨rfl, collect_find s⟩
+/-- **The collector does not change what reachable objects contain**, in either half of the model.
+    (1) value objects: after mark + sweep every live handle finds the very same object.
+    (2) keep programs (heap graphs): after `GC_Mark; GC_Sweep` — the marker of src/GC.c (Cello/Heap.lean) run on what the Mark
+    instances of Array, List, Table, Tree, Tuple, Thread hand to it and on the conservative scan of Ref, Box and plain structs —
+    the holder variables and thread-local storage are as before and EVERY block the program can reach from them, through any
+    chain of containers, Refs, Boxes and struct fields (`KReach`: what the containers hold, not what their Mark instances
+    enumerate), is still there with the same contents.  Collections happen only in configurations with a collector
+    (`gcTail`), so this is what makes them unobservable. -/
+theorem C18_collect_preserves_reachable (s : St) (k : Keep.KSt) (hk : Keep.Fresh k) :
+    ((collect s).live = s.live ∧ ∀ p ∈ s.live, findObj (collect s).heap p.2 = findObj s.heap p.2) ∧
+    ((Keep.kcollect k).slots = k.slots ∧ (Keep.kcollect k).tls = k.tls ∧
+      (∀ i, Keep.KReach k.heap k.roots i → (Keep.kcollect k).heap.lookup i = k.heap.lookup i) ∧
+      (∀ i c, (Keep.kcollect k).heap.lookup i = some c → k.heap.lookup i = some c)) :=
+  ⟨⟨rfl, collect_find s⟩, rfl, rfl, fun _ hr => Keep.kcollect_keeps hk hr, fun _ _ h => Keep.kcollect_sub k h⟩
+
+/-- **Every Mark instance covers everything its container holds** (for the source as it is now): whatever a block refers
+    to — every item of an Array or List of Refs, the key and the value of EVERY entry of a Table's slot array and of every
+    Tree node, every item of a heap Tuple, the pointer of a Ref or Box, the last word of a plain struct — is among the words
+    the collector reads when it traces the block.  Rests on the loop bound of `Table_Mark` (`CelloGen.Cfg.tableMarkBound`),
+    the Mark declarations, the leaf list and the scan bound of `GC_Recurse` as regenerated from /repo. -/
+theorem C18_mark_covers_container (c : Keep.Cell) (j : Nat) (hj : j ∈ c.refs) :
+    Keep.addr j ∈ Cello.Heap.fields Cello.Heap.Cfg.current (Keep.toObj c) :=
+  Keep.refs_fields c j hj
+
+/-- the Mark functions in /repo are the ones `Keep.toObj` was written against: `Table_Mark` walks all `nslots` slots; the
+    texts of Array_Mark, List_Mark, Thread_Mark, Tree_Mark, Tuple_Mark are unchanged; no other type declares Mark -/
+theorem C18_mark_functions_as_modelled :
+    tableMarkBound = "nslots" ∧
+    markFunctions.map (·.1) = ["Array", "List", "Thread", "Tree", "Tuple"] ∧
+    markFunctions.map (·.2.1) = markFunctions.map (·.2.2) := by
+  decide +kernel
+
+/-- **The loop bound of Table_Mark matters**: after `set(t, 3, x)` on a new Table (5 slots, one item) the only entry sits in
+    slot 3 — a walk over the first `nitems` slots presents nothing to the collector although the table holds `x`. -/
+theorem C18_table_mark_bound_needed :
+    (match Cello.Table.set Keep.tcfg Keep.hashInt (Cello.Table.new Keep.tcfg) 3 (0 : Nat) with
+     | .ok t => decide (t.n = 5) && decide (t.nitems = 1) && decide (Keep.tabEntries t = [(3, 0)]) &&
+                (t.slots.toList.take t.nitems).all (·.isNone)
+     | .error _ => false) = true := by
+  decide +kernel
+
+/-- **Keep programs, one operation.** From two states that show the program the same thing (`Sim`: same holder variables,
+    thread-local entries, and the same contents in every reachable block; garbage, registry and thresholds may differ), an
+    operation has the same outcome under ANY two configurations — read the same values, or is refused alike — and leaves
+    states that again show the program the same thing, however often either collector ran in between. -/
+theorem C18_keep_step_config_independent (c₁ c₂ : Cfg) (op : Keep.KOp) (s t : Keep.KSt)
+    (h : Keep.Sim s t) (hs : Keep.Fresh s) (ht : Keep.Fresh t) :
+    (Keep.kstep c₁ op s).2 = (Keep.kstep c₂ op t).2 ∧ Keep.Sim (Keep.kstep c₁ op s).1 (Keep.kstep c₂ op t).1 ∧
+      Keep.Fresh (Keep.kstep c₁ op s).1 ∧ Keep.Fresh (Keep.kstep c₂ op t).1 :=
+  Keep.kstep_sim c₁ c₂ op h hs ht
+
+/-- **C18 for keep programs.** Every program over holders — containers of every kind that declares Mark, Ref/Box chains,
+    thread-local storage, as the sole path to collector-managed objects; insertions, removals with and without `del`,
+    shrinking, rehashing, allocation pressure, forced collections, every element read back — computes the same list of
+    outcomes under any two configurations of the switches (no in-contract hypothesis: refusals agree as well), and ends in
+    states that show the program the same objects. -/
+theorem C18_keep_config_independent (c₁ c₂ : Cfg) (prog : List Keep.KOp) :
+    (Keep.krun c₁ prog Keep.KSt.init).2 = (Keep.krun c₂ prog Keep.KSt.init).2 ∧
+      Keep.Sim (Keep.krun c₁ prog Keep.KSt.init).1 (Keep.krun c₂ prog Keep.KSt.init).1 :=
+  Keep.krun_sim c₁ c₂ prog (Keep.Sim.refl _) Keep.fresh_init Keep.fresh_init
+
+/-- what `Sim` means for the program: whatever operation comes next sees exactly the same -/
+theorem C18_keep_sim_observe (s t : Keep.KSt) (h : Keep.Sim s t) (op : Keep.KOp) : Keep.view op s = Keep.view op t :=
+  Keep.view_eq h op
+
+/-- **When the collector runs is irrelevant**: an extra collection before any operation changes neither its outcome nor
+    what the program can see afterwards (the real registry also holds the objects of the rest of the workload, so the real
+    collections come at other moments than the model's). -/
+theorem C18_keep_collection_schedule_irrelevant (c : Cfg) (op : Keep.KOp) (s : Keep.KSt) (hs : Keep.Fresh s) :
+    (Keep.kstep c op (Keep.kcollect s)).2 = (Keep.kstep c op s).2 ∧
+      Keep.Sim (Keep.kstep c op (Keep.kcollect s)).1 (Keep.kstep c op s).1 := by
+  obtain ⟨h1, h2, _⟩ := Keep.kstep_sim c c op (Keep.kcollect_sim_left (Keep.Sim.refl s) hs) (Keep.kcollect_fresh hs) hs
+  exact ⟨h1, h2⟩
 
 /-- **Complete characterisation, no in-contract hypothesis.** For every program and every configuration, the outcome lists
     under the default build and under `cfg` have the same length and agree position by position, except that a raise of
@@ -216,6 +286,34 @@ example :
     (run Cfg.default sampleProg St.init).1.memo ≠ [] ∧ (run ⟨false, false, false⟩ sampleProg St.init).1.memo = [] ∧
     (run Cfg.default sampleProg St.init).1.heap.length < (run ⟨false, false, false⟩ sampleProg St.init).1.heap.length ∧
     headerWords Cfg.default = 3 ∧ headerWords ⟨false, true, true⟩ = 1 := by
+  decide +kernel
+
+/-- **C18 for the whole workload** (what lean/Driver/Cfg.lean executes and harness/h_cfg.c prints): operations on value
+    objects and keep operations interleaved in any order, a forced collection acting on both halves.  If no operation on
+    value objects leaves the contract under the default configuration, every configuration prints the same transcript. -/
+theorem C18_workload_config_independent (cfg : Cfg) (prog : List WOp)
+    (hok : WInContract (wrun Cfg.default prog (St.init, Keep.KSt.init)).2) :
+    (wrun cfg prog (St.init, Keep.KSt.init)).2 = (wrun Cfg.default prog (St.init, Keep.KSt.init)).2 :=
+  wrun_sim cfg prog _ _ _ _ (Equiv.refl _) (WF_init _) (WF_init _) (Keep.Sim.refl _) Keep.fresh_init Keep.fresh_init hok
+
+/-- a keep workload: a Table (Int ↦ Ref) and a Table whose KEYS hold the pointers, filled with keys whose home slots lie
+    beyond the item count; a Ref/Box chain; thread-local storage; allocation pressure and forced collections; removals with
+    and without `del`; everything read back -/
+def sampleKeep : List Keep.KOp :=
+  [.hnew 0 .tableV, .hput 0 3 0 50, .hput 0 4 1 60, .hput 0 8 2 70, .hnew 1 .chain, .hput 1 0 3 30, .hput 1 1 4 40, .hput 1 0 5 55,
+   .hnew 2 .tls, .hput 2 9 6 66, .hnew 3 .tableK, .hput 3 4 7 77, .hchurn 100, .gc, .hread 0, .hread 1, .hread 2, .hread 3,
+   .hrel 0 4, .hrem 1 1, .hchurn 200, .gc, .hread 0, .hread 1, .hget 2 9, .hdrop 3, .hdel 0, .gc, .hread 1]
+
+/-- the keep theorem is not vacuous: in the default build (collector at work, several collections) the sample program is
+    in contract throughout and reads back exactly what it stored — computed through the build without a collector, to which
+    `C18_keep_config_independent` equates it -/
+example :
+    (Keep.krun Cfg.default sampleKeep Keep.KSt.init).2.getD 14 .ub =
+      .ok (.read [(3, 0, 50), (4, 1, 60), (8, 2, 70)] (some (5, 2))) ∧
+    (Keep.krun Cfg.default sampleKeep Keep.KSt.init).2.getD 15 .ub = .ok (.read [(0, 5, 55), (1, 3, 30), (2, 4, 40)] none) ∧
+    (Keep.krun Cfg.default sampleKeep Keep.KSt.init).2.getD 23 .ub = .ok (.read [(0, 5, 55), (1, 4, 40)] none) ∧
+    (Keep.krun Cfg.default sampleKeep Keep.KSt.init).2.all (fun r => match r with | .ok _ => true | _ => false) = true := by
+  rw [(C18_keep_config_independent Cfg.default ⟨true, true, false⟩ sampleKeep).1]
   decide +kernel
 
 end Cello.Config
